@@ -14,8 +14,8 @@ RULE = ("byte strings as messages and as files: random bytes; well-formed messag
         "bitmap byte, MTI, TLV length and every byte of `decimal` typed elements substituted from the class alphabet {digits, sign, space, underscore, NBSP, NUL, "
         "high bytes}; truncation at every offset, insert / delete / bit-flip multi-point mutations; IPM/VBS files with "
         "mutated records and lengths, blocked and unblocked; command-line tools on malformed files. Every case under a "
-        "2 s watchdog. Non-trivial = the mutated input differs from a valid message; distinct = distinct input bytes")
-TRUSTED = c01.TRUSTED + ["a pure-Python hang is interrupted by SIGALRM (the watchdog) and reported as `diverge`"]
+        "2 s CPU-time watchdog. Non-trivial = the mutated input differs from a valid message; distinct = distinct input bytes")
+TRUSTED = c01.TRUSTED + ["a pure-Python hang is interrupted by the watchdog (2 s of CPU time of the worker process, wall-clock backstop 60 s) and reported as `diverge`"]
 ASSUMPTIONS = c01.ASSUMPTIONS + ["`decimal` typed elements of at most 15 characters in the correspondence (CPython refuses "
                                  "exponents beyond about 10^18, which the Lean model of Decimal() does not bound; the "
                                  "theorems do not depend on it)"]
